@@ -231,7 +231,9 @@ def check_program(drv, chk, name, src, opts, pool, envs, steps, failures, diffs,
         chk.sample({"name": name, "virtual_code_head": vtext[:300], "map": dict(list(cap.mapping.items())[:8]), "validator": v})
     known_ids = {f["id"] for f in chk.known}
     # -- dynamic search (always for rejected programs, and for every program in this run: it is cheap) ----------------------
-    for es in envs:
+    # a rejected artefact is not known to be right: it gets many more environments (derived from the run's own, so replayable)
+    envs_here = list(envs) + ([(envs[0] * 7919 + 104729 * k) % (1 << 30) for k in range(1, 4 * len(envs) + 5)] if v["verdict"] == "reject" else [])
+    for es in envs_here:
         d = drv.call(cmd="run-pair", a=vtext, b=ptext, seed=es, steps=steps, pool=pool, indirect=indirect)
         if d["verdict"] == "outside-declared-successors":
             stats["pair_left_declared_successors"] = stats.get("pair_left_declared_successors", 0) + 1
